@@ -163,6 +163,23 @@ def run(chk):
         cmp("sphere.inertia_tensor", C.sym6(sph.inertia_tensor), Is, scale=max(abs(x) for x in Is))
         cmp("ellipsoid.volume", eld.volume, vol)
         cmp("ellipsoid.inertia_tensor", C.sym6(eld.inertia_tensor), I6, scale=max(abs(x) for x in I6))
+        # the measures are those of the shape, whatever was asked of it before: every query that is not an assignment (exports, containment,
+        # distance, form factor) is made once, and the measures are read again
+        for nm, shp in (("circle", circ), ("ellipse", ell), ("sphere", sph), ("ellipsoid", eld)):
+            names = [n for n in ("area", "volume", "perimeter", "surface_area", "centroid", "planar_moments_inertia", "polar_moment_inertia", "inertia_tensor", "iq", "eccentricity")
+                     if hasattr(type(shp), n)]
+            before = {n: C.excname(lambda n=n: np.asarray(getattr(shp, n), float).copy()) for n in names}
+            for qn, qf in (("to_hoomd", lambda: shp.to_hoomd()), ("is_inside", lambda: shp.is_inside(np.array([[0.1, 0.2, 0.3], cen + 0.01]))),
+                           ("distance_to_surface", lambda: shp.distance_to_surface(np.array([0.3, 2.0]))),
+                           ("compute_form_factor_amplitude", lambda: shp.compute_form_factor_amplitude(np.array([[0.3, 0.1, -0.2]]))),
+                           ("repr", lambda: repr(shp)), ("to_json", lambda: shp.to_json(["centroid"]))):
+                C.excname(qf)
+            for n in names:
+                st2, v2 = C.excname(lambda n=n: np.asarray(getattr(shp, n), float))
+                if st2 != before[n][0] or (st2 == "ok" and not np.array_equal(v2, before[n][1])):
+                    chk.violation("%s.%s-changed-by-a-query" % (nm, n), dict(desc, before=None if before[n][0] != "ok" else before[n][1].tolist(),
+                                                                           after=None if st2 != "ok" else v2.tolist()))
+                    break
         # the centre given as integers (tuple of ints / integer array) means the same centre as the float array
         ci = [int(round(x)) for x in cen[:3]]
         if any(ci):
